@@ -295,9 +295,38 @@ func buildAlphabet() []letter {
 
 // ---------------------------------------------------------------- the guest
 
+// Scratch area outside the traced window: the patterns the "stack dirtier" loads.
+const (
+	pDirtFF = 0x400 // 256 bytes of 0xFF
+	pDirtA5 = 0x500 // 256 bytes of 0xA5
+)
+
+// Call shapes. Every WASI import can be reached in three ways (all exported):
+//
+//	"<fn>"     direct:  export wrapper -> import
+//	"<fn>.ff"  hostile: dirty(0xFF..) ; forward1 -> wrapper -> import
+//	"<fn>.a5"  hostile: dirty(0xA5..) ; forward2 -> forward1 -> wrapper -> import
+//
+// dirty(base, n) loads 32 distinct i64 values (all ones / 0xA5..) from memory into locals, calls a leaf
+// and itself (n more levels) while they are live — so the compiler has to spill them to the native
+// stack — and xors them together afterwards. When it has returned, the stack area below the caller is
+// full of non-zero 64-bit words; the forwarders (functions that only pass their parameters on) then put
+// the host-call argument slots of the import into that area. A host function that forgets to truncate a
+// 32-bit parameter sees the residue in the upper half of its slot. The model does not know about shapes:
+// defaults must not depend on what was on the stack before.
+const (
+	shapeDirect = 0
+	shapeFF     = 1
+	shapeA5     = 2
+)
+
+var shapeSuffix = [3]string{"", ".ff", ".a5"}
+var shapeLabel = [3]string{"direct", "after stack dirtier 0xFF.. via 1 forwarder", "after stack dirtier 0xA5.. via 2 forwarders"}
+
 // buildGuest returns ONE fixed module: it imports all 46 WASI functions and exports, for each, a
-// wrapper with the same signature (named like the import) plus the memory. One page of memory whose
-// first winSize bytes are initialised by a data segment.
+// wrapper with the same signature (named like the import), two "hostile stack" variants of it (see the
+// call shapes above) and the memory. One page of memory whose first winSize bytes are initialised by a
+// data segment.
 func buildGuest() []byte {
 	m := &wb.Module{}
 	m.Mem = &wb.Limits{Min: 1, Max: 1, HasMax: true}
@@ -320,19 +349,68 @@ func buildGuest() []byte {
 		}
 		imps[i] = m.ImportFunc("wasi_snapshot_preview1", f.name, vt(f.params), res)
 	}
+	// leaf(x) = x ; dirty(base, n): see the comment on the call shapes.
+	leaf := m.AddFunc([]byte{wb.I64}, []byte{wb.I64}, nil, (&wb.Asm{}).LocalGet(0).B)
+	const nDirty = 32
+	dirtyLocals := make([]byte, nDirty+1)
+	for i := range dirtyLocals {
+		dirtyLocals[i] = wb.I64
+	}
+	dirty := m.NumImportedFuncs() + uint32(len(m.Funcs)) // its own index (it recurses)
+	{
+		const acc = 2 + nDirty
+		a := &wb.Asm{}
+		for i := 0; i < nDirty; i++ {
+			a.LocalGet(0).Mem(0x29, 3, uint64(8*i)).LocalSet(uint32(2 + i)) // i64.load
+		}
+		a.LocalGet(2).Call(leaf).LocalSet(acc)
+		a.LocalGet(1).If(wb.Void)
+		a.LocalGet(acc).LocalGet(0).LocalGet(1).I32Const(1).Op(0x6b).Call(dirty).Op(0x85).LocalSet(acc) // acc ^= dirty(base, n-1)
+		a.End()
+		for i := 0; i < nDirty; i++ {
+			a.LocalGet(acc).LocalGet(uint32(2 + i)).Op(0x85).LocalSet(acc)
+		}
+		a.LocalGet(acc)
+		if got := m.AddFunc([]byte{wb.I32, wb.I32}, []byte{wb.I64}, dirtyLocals, a.B); got != dirty {
+			panic("dirty index")
+		}
+	}
 	for i, f := range wasiFns {
 		var res []byte
 		if !f.noRet {
 			res = []byte{wb.I32}
 		}
-		a := &wb.Asm{}
-		for p := range f.params {
-			a.LocalGet(uint32(p))
+		forward := func(to uint32) uint32 {
+			a := &wb.Asm{}
+			for p := range f.params {
+				a.LocalGet(uint32(p))
+			}
+			a.Call(to)
+			return m.AddFunc(vt(f.params), res, nil, a.B)
 		}
-		a.Call(imps[i])
-		m.ExportFunc(f.name, m.AddFunc(vt(f.params), res, nil, a.B))
+		wrapper := forward(imps[i])
+		m.ExportFunc(f.name, wrapper)
+		fwd1 := forward(wrapper)
+		fwd2 := forward(fwd1)
+		hostile := func(base int32, to uint32) uint32 {
+			a := (&wb.Asm{}).I32Const(base).I32Const(2).Call(dirty).Drop()
+			for p := range f.params {
+				a.LocalGet(uint32(p))
+			}
+			a.Call(to)
+			return m.AddFunc(vt(f.params), res, nil, a.B)
+		}
+		m.ExportFunc(f.name+shapeSuffix[shapeFF], hostile(pDirtFF, fwd1))
+		m.ExportFunc(f.name+shapeSuffix[shapeA5], hostile(pDirtA5, fwd2))
 	}
 	m.Exports = append(m.Exports, wb.Export{Name: "memory", Kind: wb.KindMemory, Idx: 0})
-	m.Datas = []wb.Data{{Offset: wb.CI32(0), Bytes: initialWindow()}}
+	pat := make([]byte, 512)
+	for i := range pat {
+		pat[i] = 0xFF
+		if i >= 256 {
+			pat[i] = 0xA5
+		}
+	}
+	m.Datas = []wb.Data{{Offset: wb.CI32(0), Bytes: initialWindow()}, {Offset: wb.CI32(pDirtFF), Bytes: pat}}
 	return m.Encode()
 }
